@@ -29,7 +29,7 @@ EXPR = [
     ("ifexp", "$0 if $1 else $2"),
     ("lambda0", "lambda: $0"), ("lambda1", "lambda q: $0"), ("lambda_default", "lambda q, r=2: $0"), ("lambda_star", "lambda *q: $0"),
     ("lambda_kw", "lambda **q: $0"), ("lambda_posonly", "lambda q, /, r: $0"), ("lambda_kwonly", "lambda q, *, r: $0"),
-    ("lambda_all", "lambda q, r=1, *s, t, u=2, **v: $0"), ("lambda_defaults2", "lambda q=1, r=2: $0"),
+    ("lambda_all", "lambda q, r=1, *s, t, u=2, **v: $0"), ("lambda_star_kwdefault_first", "lambda *p, r=1, s: $0"), ("lambda_defaults2", "lambda q=1, r=2: $0"),
     ("call1", "f($0)"), ("call2", "f($0, $1)"), ("callkw", "f(k=$0)"), ("callstar", "f(*$0)"), ("callss", "f(**$0)"),
     ("callmix", "f($0, *$1, k=$2, **w)"), ("callgen", "f(q for q in $0)"), ("callcallee", "($0)($1)"),
     ("sub", "$0[$1]"), ("slice2", "$0[$1:$2]"), ("slice3", "$0[$1:$2:$3]"), ("sliceall", "$0[:]"), ("slicestep", "$0[::$1]"),
@@ -70,7 +70,11 @@ STMT = [
     ("with", "with {e}:\n{b}"), ("with_as", "with {e} as q:\n{b}"), ("with2", "with {e} as q, {e} as r:\n{b}"),
     ("def", "def g():\n{b}"), ("def_pos", "def g(q, r):\n{b}"), ("def_default", "def g(q, r=1):\n{b}"), ("def_star", "def g(*q):\n{b}"), ("def_kw", "def g(**q):\n{b}"),
     ("def_kwonly", "def g(q, *, r):\n{b}"), ("def_kwonly_default", "def g(q, *, r=1, s):\n{b}"), ("def_posonly", "def g(q, /, r):\n{b}"),
-    ("def_default_star_kwonly", "def g(q, r=1, *s, t):\n{b}"), ("def_all", "def g(q, r=1, /, s=2, *t, u, v=3, **w):\n{b}"),
+    ("def_default_star_kwonly", "def g(q, r=1, *s, t):\n{b}"),
+    # keyword-only parameters after *args, a defaulted one BEFORE a required one (kw_defaults is index-aligned with kwonlyargs)
+    ("def_star_kwdefault_first", "def g(*p, r=1, s):\n{b}"), ("def_star_kw_mixed", "def g(q, *p, r=1, s, t=2, **w):\n{b}"),
+    ("def_kwonly_required_last", "def g(*, r=1, s=2, t):\n{b}"), ("def_star_kw_required_first", "def g(*p, r, s=1):\n{b}"),
+    ("def_posonly_default", "def g(q, r=1, /, s=2):\n{b}"), ("def_method_star_kw", "class K:\n    def m(self, *p, r=1, s):\n        return {e}"), ("def_all", "def g(q, r=1, /, s=2, *t, u, v=3, **w):\n{b}"),
     ("def_ann", "def g(q: int, r: str = 's') -> bool:\n{b}"), ("def_deco", "@d\ndef g():\n{b}"), ("def_deco2", "@d1\n@d2({e})\ndef g():\n{b}"),
     ("def_return", "def g():\n    return {e}"), ("def_return_none", "def g():\n    return"), ("def_yield", "def g():\n    yield {e}"), ("def_yield_from", "def g():\n    yield from {e}"),
     ("def_doc", 'def g():\n    """doc"""\n    return {e}'), ("def_nested", "def g():\n    def h(q):\n        return {e}\n    return h"),
